@@ -143,5 +143,37 @@ def c03():
     return False
 
 
+
+def c05():
+    """resume after the (empty) unit-cube shell was removed at the end of
+    exploration: bound 0 is a NautilusBound but is read back as UnitCube."""
+    import shutil
+    import warnings
+    warnings.simplefilter('ignore')
+    from nautilus import Sampler
+
+    def like(x):
+        return -0.5 * float(np.sum((x - 0.5) ** 2))
+    kw = dict(n_dim=2, n_live=6, n_batch=6, n_networks=0,
+              enlarge_per_dim=1.6, n_points_min=3)
+    seed = 158
+    d = tempfile.mkdtemp()
+    try:
+        fp = d + '/ck.h5'
+        s = Sampler(lambda x: x, like, seed=seed, filepath=fp, **kw)
+        while len(s.bounds) < 2 and s.n_like < 200:
+            s.run(f_live=1e-9, n_like_max=s.n_like + 6)
+        s.run(f_live=1.0, n_like_max=s.n_like + 6)
+        s2 = Sampler(lambda x: x, like, seed=seed, filepath=fp, **kw)
+        t1 = [type(b).__name__ for b in s.bounds]
+        t2 = [type(b).__name__ for b in s2.bounds]
+        s.run(f_live=1.0, n_eff=50, n_like_max=s.n_like + 60)
+        s2.run(f_live=1.0, n_eff=50, n_like_max=s2.n_like + 60)
+        print('bounds live', t1, 'resumed', t2, 'log_z', s.log_z, s2.log_z)
+        return t1 != t2 or s.log_z != s2.log_z
+    finally:
+        shutil.rmtree(d)
+
+
 if __name__ == '__main__':
     sys.exit(1 if globals()[sys.argv[1]]() else 0)
